@@ -46,6 +46,7 @@ def shards(tier, seed):
 
 def _gen_table(r):
     """Logical table: list of nodes (id, 'grid'|'spoint', letters) in table order."""
+    from numpy import arange as np_arange
     from vf.oracles import sets
     u = r.random()
     n = 1 if u < 0.04 else int(r.integers(2, 8)) if u < 0.5 else int(r.integers(8, 41))
@@ -77,11 +78,6 @@ def _gen_table(r):
         else:
             nodes.append((i, "spoint", palette[int(r.integers(0, npal))]))
     return nodes
-
-
-def np_arange(a, b):
-    import numpy as np
-    return np.arange(a, b)
 
 
 def _rows(nodes):
@@ -147,6 +143,16 @@ def _build(n2p, pd, np, nodes, form, r):
 
 
 FORMS = ("addgrid", "make_uset", "nastran")
+
+
+def _allow(sh, key, n=6):
+    """Inputs of a class with a listed finding are generated at most `n` times per
+    shard, so that they can never fill the collector's violation list."""
+    k = "cell:finding-class-" + key
+    if sh.counters.get(k, 0) >= n:
+        return False
+    sh.count(k)
+    return True
 
 
 def _rand_expr(r, names, kmax=3):
@@ -378,8 +384,12 @@ def _check_dofpv(sh, n2p, np, uset, nodes, rows, form, r, tdesc, nreq):
         scalar = kind == 8 and len(req) == 1 and r.random() < 0.5
         if r.random() < 0.03:       # illegal component digit
             req = [[nodes[0][0], 7 if r.random() < 0.5 else 1287]]
-            kind = 9
+            kind, scalar = 9, False
         sel = list(range(len(rows))) if nasset == "p" else sets.rows_of(bases, nasset)
+        if not sel and not _allow(sh, "mkdofpv-empty-set"):
+            nasset = "p" if r.random() < 0.5 else "g+e"
+            as_int = False
+            sel = list(range(len(rows)))
         pos = {(rows[k][0], rows[k][1]): j for j, k in enumerate(sel)}
         exp = _expand(req, grids_only)
         case = {"table": tdesc, "form": form, "nasset": nasset, "dof": req,
@@ -528,7 +538,7 @@ def _check_upstream(sh, n2p, pd, np, r, i):
     nas["selist"].append([0, 0])
     nas["selist"] = np.array(nas["selist"])
     nas["uset"][0] = n2p.make_uset([[d[0], 123456 if d[1] == "grid" else 0]
-                                    for d in dn_nodes], "a" if False else "b")
+                                    for d in dn_nodes], "b")
     dnidx = [(int(a), int(b)) for a, b in nas["uset"][0].index.tolist()]
     case = {"family": "upstream", "index": i}
     sh.case(["upstream", sh.seed, i, dnidx], True)
@@ -572,8 +582,8 @@ def _check_mat_intersect(sh, locate, np, r, i):
     cls = cls[i % 10]
     onedim = r.random() < 0.25
     c = 1 if onedim else int(r.integers(1, 5))
-    r1 = int(r.integers(0, 13)) if r.random() < 0.8 else 0
-    r2 = int(r.integers(0, 13)) if r.random() < 0.8 else 0
+    r1 = int(r.integers(0, 13)) if r.random() < 0.9 else 0
+    r2 = int(r.integers(0, 13)) if r.random() < 0.9 else 0
     alpha = int(r.integers(2, 5))
     dts = ["int64", "int32", "float64", "float32"]
     dt1, dt2 = dts[int(r.integers(0, 4))], dts[int(r.integers(0, 4))]
@@ -595,6 +605,9 @@ def _check_mat_intersect(sh, locate, np, r, i):
     if onedim:
         D1, D2 = D1.ravel(), D2.ravel()
     keep = int(r.integers(0, 3))
+    if (r2 == 0 and r1 > 0 and keep == 1) or (r1 == 0 and r2 > 0 and keep == 2):
+        if not _allow(sh, "mat_intersect-empty-haystack"):
+            keep = 0
     aslist = r.random() < 0.2
     case = {"fn": "mat_intersect", "D1": D1.tolist(), "D2": D2.tolist(), "dt1": dt1,
             "dt2": dt2, "keep": keep, "class": cls, "list_input": aslist}
@@ -690,6 +703,8 @@ def _check_misc_locate(sh, locate, np, r, i):
     # ---------------------------------------------------------------- find_duplicates
     elif which == 2:
         n = int(r.integers(0, 12)) if r.random() < 0.85 else int(r.integers(0, 2))
+        if n <= 1 and not _allow(sh, "find_duplicates-short"):
+            n = int(r.integers(2, 12))
         tol = 0.0 if r.random() < 0.6 else 0.3
         v = r.integers(-3, 4, n)
         if r.random() < 0.5 or tol:
@@ -712,7 +727,11 @@ def _check_misc_locate(sh, locate, np, r, i):
     # ---------------------------------------------------------------- find_subseq
     elif which in (3, 4):
         n, m = int(r.integers(1, 25)), int(r.integers(1, 5))
+        if n < m and not _allow(sh, "find_subseq-seq-shorter", 12):
+            n = m + int(r.integers(0, 20))
         mode = ["int", "intfloat", "float", "mixed"][int(r.integers(0, 4))]
+        if mode == "float" and not _allow(sh, "find_subseq-float", 40):
+            mode = "intfloat"
         seq = r.integers(-2, 3, n)
         if r.random() < 0.6 and n >= m:
             k = int(r.integers(0, n - m + 1))
